@@ -253,7 +253,48 @@ def template_case(chk, i):
                                                  "template_namespaces_flag": int(nsflag)}, nontrivial=True, key="tpl-%d" % i)
 
 
+HUGE = """struct Region { char pad[0x10000000]; int ctrl; int status; char mode; };
+struct WideRegion { char bank0[0x20000000]; int bank1; char b2[0x10000000]; long tail; short after; };
+struct Near { char pad[0x0FFFFFF0]; long long edge; char pad2[8]; int past; };
+"""
+HUGE_MEMBERS = [("Region", "pad"), ("Region", "ctrl"), ("Region", "status"), ("Region", "mode"), ("WideRegion", "bank0"), ("WideRegion", "bank1"),
+                ("WideRegion", "b2"), ("WideRegion", "tail"), ("WideRegion", "after"), ("Near", "pad"), ("Near", "edge"), ("Near", "pad2"), ("Near", "past")]
+
+
+def huge_case(chk, k):
+    """members hundreds of MiB into a record (bit offsets beyond 2^31 / 2^32): every one keeps its offset assertion, with clang's number"""
+    t = TARGETS[k % len(TARGETS)]
+    gate = ["const", "test"][k % 2]
+    d = chk.dir("huge%d" % k)
+    hdr = write(os.path.join(d, "huge.h"), HUGE)
+    name = "c06-huge-%s-%s" % (t, gate)
+    tab = write(os.path.join(d, "tt.c"), '#include "huge.h"\n#include <stddef.h>\nconst unsigned long long vf_tab[] = { %s };\n' % ", ".join(
+        "offsetof(struct %s, %s)" % m for m in HUGE_MEMBERS))
+    rc, so, se, _ = sh(["clang", "--target=" + t, "-ffreestanding", "-w", "-S", "-emit-llvm", "-o", "-", tab, "-I", d], timeout=60)
+    m = re.search(r"@vf_tab = [^\[]*\[(\d+) x i64\] \[([^\]]*)\]", so)
+    if rc != 0 or not m:
+        return Verdict(INCONCLUSIVE, name, "clang table failed " + se[-200:])
+    vals = [int(x.split()[-1]) for x in m.group(2).split(",")]
+    o = os.path.join(d, "huge.rs")
+    rc, so, se, _ = sh([build.BINDGEN, hdr] + (["--rust-target", "1.76"] if gate == "test" else []) + ["-o", o, "--", "--target=" + t, "-ffreestanding"], timeout=120, cpu=100)
+    if rc != 0:
+        return Verdict(INCONCLUSIVE, name, "bindgen failed " + se[-200:])
+    inv = inventory(o)
+    offs = {(a["ty"], a["field"]): a["value"] for a in inv["assertions"] if a["kind"] == "offset"}
+    problems = []
+    for (ty, f), want in zip(HUGE_MEMBERS, vals):
+        got = offs.get((ty, f))
+        if got is None:
+            problems.append("no offset assertion for %s::%s (C offset %d)" % (ty, f, want))
+        elif got != want:
+            problems.append("offset assertion of %s::%s says %d, clang says %d for %s" % (ty, f, got, want, t))
+    if problems:
+        return Verdict(VIOLATED, name, "\n".join(problems[:8]), files={"huge.h": HUGE, "bindings.rs": open(o).read(), "target": t})
+    return Verdict(HELD, name, obs={"huge_offsets_checked": len(vals), "target." + t: 1}, nontrivial=True, key=name)
+
+
 def run(chk):
+    chk.map(lambda k: huge_case(chk, k), range(chk.pick(4, len(TARGETS) * 2)))
     chk.map(lambda i: case(chk, i), range(chk.pick(40, 300)), budget_s=chk.pick(400, 2400))
     chk.map(lambda i: template_case(chk, i), range(chk.pick(40, 300)), budget_s=chk.pick(200, 900))
     return chk.finish(
